@@ -852,3 +852,188 @@ example (H : Nat → Idx → ℚ) :
   C13.divergence_eq_stencil_sum .backward .periodic rfl _ 2 (by decide)
     (by intro a ha; rcases (show a = 0 ∨ a = 1 by omega) with rfl | rfl <;> simp [nMin]) 0 _ H _
     (by intro a ha; rcases (show a = 0 ∨ a = 1 by omega) with rfl | rfl <;> simp [Idx.get])
+
+
+/-! ### ROUND 4: arrays of ANY ndim
+
+`finite_diff` reaches the axis by `np.swapaxes(·, 0, axis)` and nothing else in it, nor in the
+accumulation loops of the four classes, depends on `ndim`.  The definitions `fdAxisN`,
+`gradientN`, `divergenceN`, `laplacianN` (array = function of a multi-index `Nat → Nat`) are
+executed by the driver's `ndn` op and compared exactly with `PartialDerivative`, `Gradient`,
+`Divergence`, `Laplacian` on `uniform_discr` spaces of ndim 1..5 (stream `opn/…`).  The theorems
+below are for every `ndim = d`; `boxSumN shape d` is the plain sum over the `d`-dimensional
+index box (iterated `Finset` sums over the axes `0..d-1`). -/
+
+/-- On index triples the any-ndim model IS the 3-d model of the earlier rounds (so both
+streams `op/…` and `opn/…` execute the same line-wise action). -/
+theorem C13.fdAxisN_agrees_3d {K : Type} [Field K] (t : Table) (shape : Nat → Nat) (a : Nat)
+    (ha : a < 3) (c dx : K) (F : Idx → K) (x : Idx) :
+    fdAxisN den t shape a c dx (fun y => F (y 0, y 1, y 2)) x.get
+      = fdAxis den t shape a c dx F x := by
+  rcases (show a = 0 ∨ a = 1 ∨ a = 2 by omega) with rfl | rfl | rfl <;>
+    simp [fdAxis, fdAxisN, Idx.set, Idx.get, IdxN.set]
+
+/-- `PartialDerivative.adjoint` on an array of ANY ndim `d`, any axis `a < d`, any shape on
+which both leaves run: for the plain sum over the whole box `Σ G·∂ₐF = −Σ F·∂ₐ'G` with `∂ₐ'`
+built from `_ADJ_METHOD`, `_ADJ_PADDING` and the same `dx` (fibre-wise lifting of
+`fd_adjoint_transpose`; removes the `ndim ≤ 3` of `pd_adjoint`).  Same small print as
+`pd_adjoint`: plain sums, i.e. one constant weight on both sides. -/
+theorem C13.pdN_adjoint {K : Type} [Field K] (m : Method) (p : Pad) (shape : Nat → Nat)
+    (d a : Nat) (ha : a < d)
+    (h : sizeCheck guards (tbl m p) p (shape a) = none)
+    (h' : sizeCheck guards (tbl (adjMethod m) (adjPad p)) (adjPad p) (shape a) = none)
+    (dx : K) (F G : IdxN → K) :
+    boxSumN shape d (fun x => G x * fdAxisN den (tbl m p) shape a 0 dx F x)
+      = - boxSumN shape d
+          (fun x => F x * fdAxisN den (tbl (adjMethod m) (adjPad p)) shape a 0 dx G x) := by
+  have key := boxSumN_lift_pair shape d a ha (fd den (tbl m p) (shape a) 0 dx)
+    (fd den (tbl (adjMethod m) (adjPad p)) (shape a) 0 dx)
+    (fun f g => by
+      rw [sum_add_distrib, C13.fd_adjoint_transpose m p (shape a) h h' dx f g]; ring) F G
+  rw [boxSumN_add] at key
+  exact eq_neg_of_add_eq_zero_left key
+
+example (F G : IdxN → ℚ) :
+    boxSumN (fun a => a + 2) 5 (fun x => G x *
+        fdAxisN den (tbl .forward .order2Adj) (fun a => a + 2) 3 0 (1 / 2) F x)
+      = - boxSumN (fun a => a + 2) 5 (fun x => F x *
+        fdAxisN den (tbl .backward .order2) (fun a => a + 2) 3 0 (1 / 2) G x) :=
+  C13.pdN_adjoint .forward .order2Adj _ 5 3 (by omega) (by decide) (by decide) _ F G
+
+/-- `Divergence._call` for any ndim: the executed in-order accumulation (`out = tmp₀;
+out += tmpₐ`) is the sum over the axes of `finite_diff` of component `a` along axis `a`. -/
+theorem C13.divergenceN_eq_sum {K : Type} [Field K] (t : Table) (shape : Nat → Nat) (d : Nat)
+    (c : K) (dx : Nat → K) (H : Nat → IdxN → K) (x : IdxN) :
+    divergenceN den t shape d c dx H x
+      = ∑ a ∈ range d, fdAxisN den t shape a c (dx a) (H a) x :=
+  foldl_add_eq_sum _ d
+
+/-- `Gradient.adjoint = −Divergence(_ADJ_METHOD[m], _ADJ_PADDING[p])` for EVERY ndim `d`
+(no `d ≤ 3`): `Σₐ ⟨Hₐ, (∇F)ₐ⟩ = −⟨F, div' H⟩` over the `d`-dimensional box, with
+`divergenceN` the in-order accumulation of `Divergence._call`. -/
+theorem C13.gradN_divN_adjoint {K : Type} [Field K] (m : Method) (p : Pad) (shape : Nat → Nat)
+    (d : Nat)
+    (h : ∀ a < d, sizeCheck guards (tbl m p) p (shape a) = none)
+    (h' : ∀ a < d, sizeCheck guards (tbl (adjMethod m) (adjPad p)) (adjPad p) (shape a) = none)
+    (dx : Nat → K) (F : IdxN → K) (H : Nat → IdxN → K) :
+    ∑ a ∈ range d, boxSumN shape d (fun x => H a x * gradientN den (tbl m p) shape 0 dx F a x)
+      = - boxSumN shape d (fun x => F x *
+            divergenceN den (tbl (adjMethod m) (adjPad p)) shape d 0 dx H x) := by
+  simp only [C13.divergenceN_eq_sum, mul_sum, boxSumN_sum, ← sum_neg_distrib]
+  refine sum_congr rfl (fun a ha => ?_)
+  have ha := mem_range.1 ha
+  exact C13.pdN_adjoint m p shape d a ha (h a ha) (h' a ha) (dx a) F (H a)
+
+example (F : IdxN → ℚ) (H : Nat → IdxN → ℚ) :
+    ∑ a ∈ range 4, boxSumN (fun _ => 3) 4 (fun x => H a x *
+        gradientN den (tbl .central .order1) (fun _ => 3) 0 (fun a => (a : ℚ) + 1) F a x)
+      = - boxSumN (fun _ => 3) 4 (fun x => F x *
+        divergenceN den (tbl .central .order1Adj) (fun _ => 3) 4 0 (fun a => (a : ℚ) + 1) H x) :=
+  C13.gradN_divN_adjoint .central .order1 _ 4 (fun _ _ => by decide) (fun _ _ => by decide) _ F H
+
+/-- `Divergence.adjoint = −Gradient(_ADJ_METHOD[m], _ADJ_PADDING[p])` for EVERY ndim `d`. -/
+theorem C13.divN_gradN_adjoint {K : Type} [Field K] (m : Method) (p : Pad) (shape : Nat → Nat)
+    (d : Nat)
+    (h : ∀ a < d, sizeCheck guards (tbl m p) p (shape a) = none)
+    (h' : ∀ a < d, sizeCheck guards (tbl (adjMethod m) (adjPad p)) (adjPad p) (shape a) = none)
+    (dx : Nat → K) (G : IdxN → K) (H : Nat → IdxN → K) :
+    boxSumN shape d (fun x => G x * divergenceN den (tbl m p) shape d 0 dx H x)
+      = - ∑ a ∈ range d, boxSumN shape d
+          (fun x => H a x * gradientN den (tbl (adjMethod m) (adjPad p)) shape 0 dx G a x) := by
+  simp only [C13.divergenceN_eq_sum, mul_sum, boxSumN_sum, ← sum_neg_distrib]
+  refine sum_congr rfl (fun a ha => ?_)
+  have ha := mem_range.1 ha
+  exact C13.pdN_adjoint m p shape d a ha (h a ha) (h' a ha) (dx a) (H a) G
+
+example (G : IdxN → ℚ) (H : Nat → IdxN → ℚ) :
+    boxSumN (fun _ => 2) 6 (fun x => G x *
+        divergenceN den (tbl .backward .symmetricAdj) (fun _ => 2) 6 0 (fun _ => 1 / 2) H x)
+      = - ∑ a ∈ range 6, boxSumN (fun _ => 2) 6 (fun x => H a x *
+        gradientN den (tbl .forward .symmetric) (fun _ => 2) 0 (fun _ => 1 / 2) G a x) :=
+  C13.divN_gradN_adjoint .backward .symmetricAdj _ 6 (fun _ _ => by decide)
+    (fun _ _ => by decide) _ G H
+
+/-- `Laplacian.adjoint` (same pad mode, `pad_const = 0`) is the transpose for EVERY ndim `d`,
+every shape with all axes `≥ 2`, every accepted pad mode; `laplacianN` is the executed
+accumulation `out += fwd; out -= bwd` per axis with `dx²`. -/
+theorem C13.laplacianN_selfadjoint {K : Type} [Field K] (p : Pad) (hp : p ∉ lapRejected)
+    (shape : Nat → Nat) (d : Nat) (hs : ∀ a < d, 2 ≤ shape a)
+    (dx : Nat → K) (F G : IdxN → K) :
+    boxSumN shape d (fun x => G x *
+        laplacianN den (tbl .forward p) (tbl .backward p) shape d 0 dx F x)
+      = boxSumN shape d (fun x => F x *
+        laplacianN den (tbl .forward p) (tbl .backward p) shape d 0 dx G x) := by
+  have e : ∀ a < d, boxSumN shape d (fun x => G x *
+        (fdAxisN den (tbl .forward p) shape a 0 (dx a * dx a) F x
+          - fdAxisN den (tbl .backward p) shape a 0 (dx a * dx a) F x))
+      = boxSumN shape d (fun x => F x *
+        (fdAxisN den (tbl .forward p) shape a 0 (dx a * dx a) G x
+          - fdAxisN den (tbl .backward p) shape a 0 (dx a * dx a) G x)) := by
+    intro a ha
+    have key := boxSumN_lift_pair shape d a ha
+      (fun f i => fd den (tbl .forward p) (shape a) 0 (dx a * dx a) f i
+        - fd den (tbl .backward p) (shape a) 0 (dx a * dx a) f i)
+      (fun f i => -(fd den (tbl .forward p) (shape a) 0 (dx a * dx a) f i
+        - fd den (tbl .backward p) (shape a) 0 (dx a * dx a) f i))
+      (fun f g => by
+        have := C13.laplacian1_selfadjoint p hp (shape a) (hs a ha) (dx a * dx a) f g
+        simp only [mul_neg, ← sub_eq_add_neg, sum_sub_distrib]
+        rw [this]; ring) F G
+    simp only [mul_neg] at key
+    rw [boxSumN_add, boxSumN_neg] at key
+    exact eq_of_sub_eq_zero (by rw [sub_eq_add_neg]; exact key)
+  simp only [laplacianN, foldl_add_sub_eq_sum, mul_sum, boxSumN_sum]
+  exact sum_congr rfl (fun a ha => e a (mem_range.1 ha))
+
+example (F G : IdxN → ℚ) :
+    boxSumN (fun a => a + 2) 4 (fun x => G x *
+        laplacianN den (tbl .forward .order0Adj) (tbl .backward .order0Adj) (fun a => a + 2) 4 0
+          (fun _ => 2) F x)
+      = boxSumN (fun a => a + 2) 4 (fun x => F x *
+        laplacianN den (tbl .forward .order0Adj) (tbl .backward .order0Adj) (fun a => a + 2) 4 0
+          (fun _ => 2) G x) :=
+  C13.laplacianN_selfadjoint .order0Adj (by decide) _ 4 (fun a _ => by omega) _ F G
+
+/-- Any-ndim form of `fd_eq_stencil_ext`: `PartialDerivative` / each `Gradient` component at
+multi-index `x` is the textbook stencil on the padded LINE through `x` along the axis. -/
+theorem C13.pdN_eq_stencil_ext {K : Type} [Field K] [CharZero K] (m : Method) (p : Pad)
+    (hp : stencilCase m p = true) (shape : Nat → Nat) (a : Nat) (hn : nMin p ≤ shape a)
+    (c dx : K) (F : IdxN → K) (x : IdxN) (hx : x a < shape a) :
+    fdAxisN den (tbl m p) shape a c dx F x
+      = stencil m (padded p (shape a) c (fun q => F (x.set a q))) (x a) / dx :=
+  C13.fd_eq_stencil_ext m p hp (shape a) hn c dx _ _ hx
+
+/-- `Laplacian` on an array of ANY ndim `d` equals the sum over the `d` axes of the textbook
+second difference `(E[i+1] − 2E[i] + E[i−1]) / dxₐ²` of the padded line (extension pad modes,
+any `pad_const`). -/
+theorem C13.laplacianN_eq_second_difference {K : Type} [Field K] [CharZero K] (p : Pad)
+    (hp : p = .constant ∨ p = .symmetric ∨ p = .periodic ∨ p = .order0)
+    (shape : Nat → Nat) (d : Nat) (hs : ∀ a < d, 2 ≤ shape a)
+    (c : K) (dx : Nat → K) (F : IdxN → K) (x : IdxN) (hx : ∀ a < d, x a < shape a) :
+    laplacianN den (tbl .forward p) (tbl .backward p) shape d c dx F x
+      = ∑ a ∈ range d,
+          (padded p (shape a) c (fun q => F (x.set a q)) (x a + 2)
+            - 2 * padded p (shape a) c (fun q => F (x.set a q)) (x a + 1)
+            + padded p (shape a) c (fun q => F (x.set a q)) (x a)) / (dx a * dx a) := by
+  simp only [laplacianN, foldl_add_sub_eq_sum]
+  refine sum_congr rfl (fun a ha => ?_)
+  have ha := mem_range.1 ha
+  have hn : nMin p ≤ shape a := by
+    have := hs a ha
+    rcases hp with rfl | rfl | rfl | rfl <;> simpa [nMin] using this
+  have hf : stencilCase .forward p = true := by rcases hp with rfl | rfl | rfl | rfl <;> rfl
+  have hb : stencilCase .backward p = true := by rcases hp with rfl | rfl | rfl | rfl <;> rfl
+  rw [C13.pdN_eq_stencil_ext .forward p hf shape a hn c _ F x (hx a ha),
+    C13.pdN_eq_stencil_ext .backward p hb shape a hn c _ F x (hx a ha)]
+  simp only [stencil]; ring
+
+example (F : IdxN → ℚ) :
+    laplacianN den (tbl .forward .constant) (tbl .backward .constant) (fun _ => 3) 5 7
+        (fun _ => 1 / 2) F (fun _ => 1)
+      = ∑ a ∈ range 5,
+          (padded .constant 3 7 (fun q => F (IdxN.set (fun _ => 1) a q)) (1 + 2)
+            - 2 * padded .constant 3 7 (fun q => F (IdxN.set (fun _ => 1) a q)) (1 + 1)
+            + padded .constant 3 7 (fun q => F (IdxN.set (fun _ => 1) a q)) 1)
+              / ((1 / 2 : ℚ) * (1 / 2)) :=
+  C13.laplacianN_eq_second_difference .constant (Or.inl rfl) _ 5 (fun _ _ => by omega) 7 _ F _
+    (fun _ _ => by omega)
